@@ -21,8 +21,8 @@ RULE = ("cases are (a) generated valid layouts over every node class/width/encod
         "operations; a case is non-trivial when the layout has length > 0 (a) / the broken rule is confirmed by the "
         "independent model (b) / at least one operation returned a Content that was validated (c); distinct = "
         "distinct SHA-1 of the case descriptor")
-VARIANTS = {"quick": ["plain", "asan"], "thorough": ["plain", "asan"]}
-BUDGET = {"quick": dict(cases=9000, seconds=50), "thorough": dict(cases=400000, seconds=900)}
+VARIANTS = {"quick": ["asan"], "thorough": ["asan"]}
+BUDGET = {"quick": dict(cases=30000, seconds=60), "thorough": dict(cases=400000, seconds=900)}
 MIN_NONTRIVIAL = {"quick": 1500, "thorough": 20000}
 ASSUMPTIONS = [
     "the layout model (vlib/model.py) transcribes the documented validity rules correctly; a disagreement between "
@@ -32,7 +32,7 @@ ASSUMPTIONS = [
 
 
 def gen_case(rng, tier, index):
-    cfg = gen.Cfg(tier, cat_empty=(rng.random() < 0.1))
+    cfg = gen.Cfg(tier, cat_empty=(rng.random() < 0.1), categorical=(rng.random() < 0.5))
     mode = ["valid", "invalid", "closure"][index % 3]
     T, vals, d = gen.layout(rng, cfg)
     case = {"mode": mode, "T": T, "layout": d}
@@ -72,8 +72,12 @@ def run_case(ctx, case):
     elif mode == "invalid":
         if mv is None:
             raise RuntimeError("invalidate(%s) produced a layout the model calls valid" % case["rule"])
-        h = b.build(d)
-        ve = b.validityerror(h)
+        try:
+            h = b.build(d)
+            ve = b.validityerror(h)
+        except AkError as e:
+            ve = "constructor refused: " + e.msg[:100]
+            ctx.count("rejected_by_constructor")
         ctx.count("reject_checked")
         node = model.get_at(d, [tuple(p) if isinstance(p, list) else p for p in case["path"]])
         ctx.cover("rejected_rule_x_class", case["rule"] + "@" + node["c"] + node.get("w", ""))
